@@ -40,7 +40,15 @@ PROPS["C13"] = {
         "event \"\", event \"x\"} each followed by one event of every type, and the same sweep one operation shorter with the named type "
         "\"message\" (the specification's name for the unnamed type) in place of \"x\"; seeded random histories (<= 40 / 120 operations, a pool "
         "of 4 types: the unnamed type next to ordinary names or next to its look-alikes \"message\", \"Message\", \" message\", \"messages\" ...; "
-        "3 labels, old removers called again and again); Connect started at a random point up to the first event; concurrent "
+        "3 labels, old removers called again and again); Connect started at a random point up to the first event; in a third of the random "
+        "histories events that follow one another arrive in ONE chunk (several complete events in the parser's buffer), in a third the "
+        "REQUEST'S CONTEXT ENDS at a random point after Connect - cancelled by the harness goroutine between two events or from inside the next "
+        "callback invoked, the context being of any kind of the connect family (WithCancel, WithCancelCause, children of it, a deadline that "
+        "expires at that instant) - while the scripted body, like a strings.Reader or a pipe, keeps delivering: every event dispatched after "
+        "it is owed to exactly the subscriptions in force, as before (model and oracle treat the end of the context as a no-op: the property "
+        "ends a subscription with its remover only; what Connect returns is C11's matter and not observed here); plus all histories of <= 4 / 5 "
+        "operations over the alphabet above extended by those two letters that contain one, and a directed sweep (5 subscription set-ups x the "
+        "cancellation after 0..6 of six events x by whom x events one by one / all remaining in one chunk / in pairs x 7 context kinds); concurrent "
         "scenarios (remover during dispatch x 4 kind pairs, storms); operations that MEET (24 / 400 cases of 50 / 60 rounds: k goroutines "
         "subscribing to one type nobody is subscribed to, or subscriptions and the removers of the type's last subscriptions, released "
         "together from a spinning barrier; events are released only after all those calls have returned, so who must receive them - each "
